@@ -220,7 +220,7 @@ func C14(tier string) int {
 		for _, arg := range c08Args(op) {
 			e := mkCond(op, "f", arg)
 			c, m, merr := evalBoth(e)
-			rep := map[string]any{"expression": gripql.HasExpressionString(e)}
+			rep := map[string]any{"expression": refsem.HasString(e)}
 			if c14Degenerate(op, arg) {
 				// arguments outside the documented shape: one class per operator
 				if merr != "" || len(symDiff(c, m)) > 0 {
@@ -229,7 +229,7 @@ func C14(tier string) int {
 						how = strings.SplitN(merr, ":", 2)[0]
 					}
 					run.Report(vf.Violation{Sig: fmt.Sprintf("filter|%s|degenerate-argument|%s", op, strings.ReplaceAll(how, " ", "-")),
-						Detail: fmt.Sprintf("has(%s): core keeps %v; emitted filter: %s %v", gripql.HasExpressionString(e), c, merr, m), Replay: rep})
+						Detail: fmt.Sprintf("has(%s): core keeps %v; emitted filter: %s %v", refsem.HasString(e), c, merr, m), Replay: rep})
 				}
 				continue
 			}
@@ -238,7 +238,7 @@ func C14(tier string) int {
 				if strings.HasPrefix(merr, "panic") {
 					cls = "panic"
 				}
-				run.Report(vf.Violation{Sig: fmt.Sprintf("filter|%s|arg=%s|%s", op, argKind(arg), cls), Detail: fmt.Sprintf("has(%s): %s; the core engine keeps %v", gripql.HasExpressionString(e), merr, c), Replay: rep})
+				run.Report(vf.Violation{Sig: fmt.Sprintf("filter|%s|arg=%s|%s", op, argKind(arg), cls), Detail: fmt.Sprintf("has(%s): %s; the core engine keeps %v", refsem.HasString(e), merr, c), Replay: rep})
 				continue
 			}
 			diff := symDiff(c, m)
@@ -252,53 +252,110 @@ func C14(tier string) int {
 			for _, name := range diff {
 				distinct[fmt.Sprintf("%s|%s|%s", op, argKind(arg), docKind(name))] = true
 				run.Report(vf.Violation{Sig: fmt.Sprintf("filter|%s|value=%s|arg=%s|core-keeps=%v", op, docKind(name), argKind(arg), contains(c, name)),
-					Detail: fmt.Sprintf("has(%s) on f=%s: core engine keeps %v, the emitted filter %v selects %v", gripql.HasExpressionString(e), name, c, mongo.VerifConvertHasExpression(e), m), Replay: rep})
+					Detail: fmt.Sprintf("has(%s) on f=%s: core engine keeps %v, the emitted filter %v selects %v", refsem.HasString(e), name, c, mongo.VerifConvertHasExpression(e), m), Replay: rep})
 			}
 		}
 	}
-	// boolean layer over atoms on which both sides agree
+	// boolean layer. The Mongo compiler pushes negations down with operator-specific code, so every
+	// operator must occur under not()/and()/or(): one or two atoms per operator (documented argument
+	// shape, selecting some but not all documents). An atom need not agree with the core engine on every
+	// document (the known divergences on non-numeric operands are atom-level findings); a composite
+	// expression is compared on exactly those documents on which all of its atoms agree, which isolates
+	// what and/or/not add.
 	boolN := 0
-	if len(agreeing) >= 2 {
-		atoms := agreeing
-		lvl1 := []*gripql.HasExpression{}
-		for _, a := range atoms {
-			lvl1 = append(lvl1, gripql.Not(a), gripql.And(a), gripql.Or(a))
-			for _, b := range atoms {
-				lvl1 = append(lvl1, gripql.And(a, b), gripql.Or(a, b))
-			}
-		}
-		lower := append(append([]*gripql.HasExpression{}, atoms...), lvl1...)
-		var lvl2 []*gripql.HasExpression
-		for _, a := range lvl1 {
-			lvl2 = append(lvl2, gripql.Not(a))
-			for _, b := range lower {
-				lvl2 = append(lvl2, gripql.And(a, b), gripql.Or(b, a))
-			}
-		}
-		all := append(append([]*gripql.HasExpression{}, lvl1...), lvl2...)
-		if thorough {
-			for _, a := range lvl2 {
-				all = append(all, gripql.Not(a))
-				for _, b := range atoms {
-					all = append(all, gripql.And(a, b), gripql.Or(a, b))
-				}
-			}
-		}
-		all = append(all, gripql.And(), gripql.Or())
-		for _, e := range all {
-			c, m, merr := evalBoth(e)
-			boolN++
-			rep := map[string]any{"expression": gripql.HasExpressionString(e)}
-			shape := boolShape(e)
-			if merr != "" {
-				run.Report(vf.Violation{Sig: "bool|" + shape + "|refused-or-panic", Detail: fmt.Sprintf("has(%s): %s; core keeps %v", gripql.HasExpressionString(e), merr, c), Replay: rep})
+	type c14Atom struct {
+		e      *gripql.HasExpression
+		agrees map[string]bool // document name -> core and emitted filter agree on the atom
+	}
+	var atoms []c14Atom
+	perOp := map[gripql.Condition]int{}
+	for _, op := range ops {
+		for _, arg := range c08Args(op) {
+			if c14Degenerate(op, arg) || perOp[op] >= 2 {
 				continue
 			}
-			if len(symDiff(c, m)) > 0 {
-				run.Report(vf.Violation{Sig: "bool|" + shape + "|selects-differently", Detail: fmt.Sprintf("has(%s): core keeps %v, emitted filter %v selects %v", gripql.HasExpressionString(e), c, mongo.VerifConvertHasExpression(e), m), Replay: rep})
+			e := mkCond(op, "f", arg)
+			c, m, merr := evalBoth(e)
+			if merr != "" || len(c) == 0 || len(c) == len(docs) {
+				continue
+			}
+			a := c14Atom{e: e, agrees: map[string]bool{}}
+			bad := symDiff(c, m)
+			n := 0
+			for _, d := range docs {
+				if !contains(bad, d.name) {
+					a.agrees[d.name] = true
+					n++
+				}
+			}
+			if n < 3 {
+				continue
+			}
+			perOp[op]++
+			atoms = append(atoms, a)
+		}
+	}
+	type c14Expr struct {
+		e     *gripql.HasExpression
+		atoms []int
+	}
+	var exprs []c14Expr
+	core4 := []int{}
+	for i := range atoms {
+		if len(core4) < 4 && (i == 0 || atoms[i].e.GetCondition().GetCondition() != atoms[i-1].e.GetCondition().GetCondition()) {
+			core4 = append(core4, i)
+		}
+	}
+	var lvl1 []c14Expr
+	for i, a := range atoms {
+		lvl1 = append(lvl1, c14Expr{gripql.Not(a.e), []int{i}}, c14Expr{gripql.And(a.e), []int{i}}, c14Expr{gripql.Or(a.e), []int{i}})
+		for _, j := range core4 {
+			lvl1 = append(lvl1, c14Expr{gripql.And(a.e, atoms[j].e), []int{i, j}}, c14Expr{gripql.Or(a.e, atoms[j].e), []int{i, j}})
+		}
+	}
+	exprs = append(exprs, lvl1...)
+	for _, x := range lvl1 {
+		exprs = append(exprs, c14Expr{gripql.Not(x.e), x.atoms})
+		for _, j := range core4 {
+			exprs = append(exprs, c14Expr{gripql.And(x.e, atoms[j].e), append(append([]int{}, x.atoms...), j)}, c14Expr{gripql.Or(atoms[j].e, x.e), append(append([]int{}, x.atoms...), j)})
+		}
+	}
+	if thorough {
+		n := len(exprs)
+		for _, x := range exprs[len(lvl1):n] {
+			exprs = append(exprs, c14Expr{gripql.Not(x.e), x.atoms})
+			for _, j := range core4[:2] {
+				exprs = append(exprs, c14Expr{gripql.And(x.e, atoms[j].e), append(append([]int{}, x.atoms...), j)})
 			}
 		}
 	}
+	exprs = append(exprs, c14Expr{gripql.And(), nil}, c14Expr{gripql.Or(), nil})
+	for _, x := range exprs {
+		c, m, merr := evalBoth(x.e)
+		boolN++
+		rep := map[string]any{"expression": refsem.HasString(x.e)}
+		shape := boolShape(x.e)
+		if merr != "" {
+			run.Report(vf.Violation{Sig: "bool|" + shape + "|refused-or-panic", Detail: fmt.Sprintf("has(%s): %s; core keeps %v", refsem.HasString(x.e), merr, c), Replay: rep})
+			continue
+		}
+		var diff []string
+		for _, name := range symDiff(c, m) {
+			ok := true
+			for _, ai := range x.atoms {
+				if !atoms[ai].agrees[name] {
+					ok = false
+				}
+			}
+			if ok {
+				diff = append(diff, name)
+			}
+		}
+		if len(diff) > 0 {
+			run.Report(vf.Violation{Sig: "bool|" + shape + "|selects-differently", Detail: fmt.Sprintf("has(%s): on documents %v (on which every atom of the expression is translated faithfully) core keeps %v, emitted filter %v selects %v", refsem.HasString(x.e), diff, c, mongo.VerifConvertHasExpression(x.e), m), Replay: rep})
+		}
+	}
+	run.Coverage["boolean_atoms"] = len(atoms)
 	run.Coverage["evaluations"] = typing + filterEvals
 	run.Coverage["typing_programs"] = typing
 	run.Coverage["typing_accepted_by_both"] = accepted
@@ -307,7 +364,7 @@ func C14(tier string) int {
 	run.Coverage["scalar_documents"] = len(docs)
 	run.Coverage["distinct_nontrivial"] = len(distinct) + accepted
 	run.Coverage["exhaustive"] = true
-	run.Coverage["rule"] = "typing: every sequence up to the length bound over starts + 59 step instances (+ a trailing aggregate), marks defined before use (quick: last level extends a 1-in-5 stride); filters: 12 operators x all argument shapes of the C08 grid x 10 scalar documents, then all and/or/not expressions of nesting <=2 (3) over atoms on which both sides agree"
+	run.Coverage["rule"] = "typing: every sequence up to the length bound over starts + 59 step instances (+ a trailing aggregate), marks defined before use (quick: last level extends a 1-in-5 stride); filters: 12 operators x all argument shapes of the C08 grid x 10 scalar documents, then and/or/not expressions of nesting <=2 (3) in which every operator occurs as an atom (<=2 atoms per operator), compared on the documents on which all atoms of the expression are translated faithfully"
 	if len(samples) == 0 {
 		samples = []string{"V().as(m1).outE(x).select(m1)"}
 	}
@@ -354,6 +411,8 @@ func boolShape(e *gripql.HasExpression) string {
 		return "or(" + strings.Join(s, ",") + ")"
 	case *gripql.HasExpression_Not:
 		return "not(" + boolShape(x.Not) + ")"
+	case *gripql.HasExpression_Condition:
+		return x.Condition.GetCondition().String()
 	}
 	return "c"
 }
